@@ -1551,6 +1551,27 @@ def replay(path):
         if case is None:
             raise vlib.ToolError("replay of a differential report needs the operator case; re-run the check")
         run_ops("thorough", ev, verd, [case], valsets, tag="replay")
+    elif kind == "px":
+        run_px("thorough", ev, verd, [obj["case"]], tag="replay")
+    elif kind == "block":
+        run_blocks("thorough", ev, verd, [obj["case"]], tag="replay")
+    elif kind in ("trace", "recorded") and obj["event"]["fam"] in ("postfix", "block"):
+        e = obj["event"]
+        if e["fam"] == "postfix":
+            o = observe_untyped([e["px"]], lambda px, cand: px_script(px, False, cand[0] or "f64", cand[1]), px_candidates)[0][0]
+        else:
+            hc, rty, body = block_script(e["bx"])
+            o = observe2([(hc, rty)])[0][0]
+        e = dict(e, obs=strip_msg(o))
+        pth = os.path.join(vlib.workdir(PID, "trace"), "replay.ndjson")
+        vlib.write_ndjson(pth, [e])
+        r = vlib.validate_trace("TraceGrammar", "TraceGrammar.cfg", pth)
+        if not (r.ok or r.postcondition_failed):
+            raise vlib.ToolError("trace validation failed to run: %s" % r.error)
+        if not r.ok:
+            verd.report({"family": e["fam"], "failure": "trace-rejected"},
+                        "`%s`: observation %s is not allowed by the specification (expected %s)" %
+                        (obj.get("text"), json.dumps(o)[:300], json.dumps(r.replay[0]["expected"])[:300] if r.replay else "?"), obj)
     elif kind in ("trace", "recorded"):
         # re-execute the recorded spelling on the real crate, then let TLC judge the fresh observation
         e = dict(obj["event"])
